@@ -658,10 +658,10 @@ class ModelTruncate(FunctionContract):
     def ensures(self, result, self_=None, truncations=None, **kw):
         from pyvc import ctx
         g = ctx.PATH.ghost
+        # (no clause on HOW the restriction is represented -- one wrapper per truncation or one wrapper with the intersected
+        # interval are both fine: the mass lemma below states the behaviour)
         nu = g["trip"].fields["nu"]
-        out = {"measure-is-a-truncation-of-the-current-measure": getattr(nu, "cls", None) is not None and nu.cls.name == "TruncatedLevyMeasure"
-               and nu.fields.get("levy_measure") is g["nu0"] and And(nu.fields["truncations"][0] == truncations[0], nu.fields["truncations"][1] == truncations[1])}
-        return out
+        return {"the-model-still-has-a-measure": nu is not None}
 
 
     def replay(self, model, clause, case):
@@ -687,6 +687,9 @@ class ModelTruncateMass(Lemma):
         for (l_, r_) in vc.ghost["bounds"]:
             lo, hi = smax(lo, l_), smin(hi, r_)
         vc.check(f"{self.name}[{case}]::mass-of-the-intersection-with-every-truncation-so-far", got == If(lo <= hi, MU(lo, hi), 0))
+        from contracts.spec_measure import MU1, MU2
+        g1, g2 = vc.method(nu, "integrate_against_x", a, b), vc.method(nu, "integrate_against_xx", a, b)
+        vc.check(f"{self.name}[{case}]::first-and-second-moment-of-the-intersection", And(g1 == If(lo <= hi, MU1(lo, hi), 0), g2 == If(lo <= hi, MU2(lo, hi), 0)))
 
     def replay(self, model, clause, case):
         from contracts import battery
